@@ -71,6 +71,28 @@ pub fn gen_fn_map(rng: &mut Rng, size: usize) -> Value {
     json!({"names": names, "mappings": text})
 }
 
+/// one x_facebook_sources entry: null, empty, a function map, several, or an UNPARSABLE one -- cut off after 0, 1, 2 or 3
+/// complete values (what a parser remembers of a failed text must not reach the next text it reads), a foreign byte
+pub fn gen_xfs_entry(rng: &mut Rng, size: usize) -> Value {
+    match rng.below(10) {
+        0 => json!([]),                                                    // null entry
+        1 => json!([[]]),                                                  // empty metadata list
+        2 => json!([[{"names": ["x"], "mappings": [2, 133, 0]}]]),          // unparsable ('!')
+        3 => json!([[{"names": ["x"], "mappings": [0, 32]}]]),              // unparsable (cut off)
+        4 => json!([[gen_fn_map(rng, size), gen_fn_map(rng, size)]]),                                   // a second entry (only the first is the function map)
+        5 => json!([[{"names": ["x"], "mappings": [0, 0, 0, 64, 7, 133]}, gen_fn_map(rng, size)]]),      // unparsable first entry, parsable second
+        6 => {
+            // cut off after k complete values, in the first or in a later segment
+            let k = rng.below(4) as usize;
+            let mut t: Vec<i64> = if rng.chance(1, 2) { vec![0, 0, 0, 65] } else { vec![] };
+            for _ in 0..k { t.push(rng.below(8) as i64 * 2); }
+            t.push(32 + rng.below(32) as i64);
+            json!([[{"names": ["x", "y"], "mappings": t}]])
+        }
+        _ => json!([[gen_fn_map(rng, size)]]),
+    }
+}
+
 pub fn gen_hermes_doc(rng: &mut Rng, size: usize) -> Value {
     let nsrc = if rng.chance(1, 12) { 64 + rng.below(10) } else { 1 + rng.below(3) };
     let ntok = if nsrc > 10 { 100 + rng.below(100) } else { rng.below((size * 5) as u64 + 1) };
@@ -88,15 +110,7 @@ pub fn gen_hermes_doc(rng: &mut Rng, size: usize) -> Value {
     // equal names -- the statement's "no duplicates" and "same enclosing function" would contradict each other)
     let null_at = if rng.chance(1, 4) { rng.below(nsrc) } else { nsrc };
     let srcs: Vec<Value> = (0..nsrc).map(|i| if i == null_at { json!([]) } else { json!([cps(&format!("s{}.js", i))]) }).collect();
-    let xfs: Vec<Value> = (0..nsrc).map(|_| match rng.below(8) {
-        0 => json!([]),                                                    // null entry
-        1 => json!([[]]),                                                  // empty metadata list
-        2 => json!([[{"names": ["x"], "mappings": [2, 133, 0]}]]),          // unparsable ('!')
-        3 => json!([[{"names": ["x"], "mappings": [0, 32]}]]),              // unparsable (cut off)
-        4 => json!([[gen_fn_map(rng, size), gen_fn_map(rng, size)]]),                                   // a second entry (only the first is the function map)
-        5 => json!([[{"names": ["x"], "mappings": [0, 0, 0, 64, 7, 133]}, gen_fn_map(rng, size)]]),      // unparsable first entry, parsable second
-        _ => json!([[gen_fn_map(rng, size)]]),
-    }).collect();
+    let xfs: Vec<Value> = (0..nsrc).map(|_| gen_xfs_entry(rng, size)).collect();
     let mut d = json!({"version": [3], "sources": [srcs], "names": [[]], "mappings": [own_mappings(&toks)], "xfs": [xfs]});
     if let Some(r) = own_range(&toks) { d["range"] = json!([r]); }
     d
